@@ -146,14 +146,14 @@ pub fn run(args: &Args) -> i32 {
         let v = check_case(&case).violations;
         return finish(args, ev, v, &|c| check_case(c).violations);
     }
-    let ms = crate::props::families::members(&["names", "fixtures"], args, &mut ev);
+    let ms = crate::props::families::members(&["names", "locals-named", "fixtures"], args, &mut ev);
     let mut cases = vec![];
     for m in &ms {
         for gc in [false, true] {
             cases.push(Case::of(m).with(json!({"gc": gc})));
         }
     }
-    ev.rule = "every subset of the 9 name subsections (x module shapes in the thorough tier) on modules whose functions are permuted by walrus's size sort, plus all fixtures, x {no pass, gc}: \
+    ev.rule = "every subset of the 9 name subsections (x module shapes in the thorough tier) on modules whose functions are permuted by walrus's size sort, every declaration order of <= 3 named locals over 4 types x used subsets x 0-2 params, plus all fixtures, x {no pass, gc}: \
         the output name section is decoded with wasmparser 0.259 and every name is traced back to the input entity through the iso maps (forced by exports / markers, never by names). \
         non-trivial = input has a name section and walrus renumbered something"
         .into();
